@@ -23,9 +23,9 @@ PID = "C12"
 EPS32 = float(np.finfo(np.float32).eps)
 
 BOUNDS = {
-    "quick": dict(Ns=[1, 2, 5, 8, 13], dtypes=["float64", "complex128", "complex64"], shapes=[(), (2,), (3, 2)],
+    "quick": dict(Ns=[1, 2, 5, 8, 13], dtypes=["float64", "complex128", "complex64", "int16"], shapes=[(), (2,), (3, 2)],
                   rates=[("1Hz", "s"), ("3kHz", "ms"), ("800MHz", "us")], long_N=[40000]),
-    "thorough": dict(Ns=[1, 2, 3, 4, 5, 7, 8, 12, 13, 16], dtypes=["float32", "float64", "complex64", "complex128"],
+    "thorough": dict(Ns=[1, 2, 3, 4, 5, 7, 8, 12, 13, 16], dtypes=["float32", "float64", "complex64", "complex128", "int16", "int64"],
                      shapes=[(), (2,), (3, 2)], rates=[("1Hz", "s"), ("3kHz", "ms"), ("800MHz", "us"), ("third_Hz", "s")],
                      long_N=[40000, 65537]),
 }
@@ -210,6 +210,8 @@ def one_call(res, case, z, zdata, XL, N, is_c, T0, srx, targ, teff, delta, n, fo
         res.violation(f"{site}|length", f"t={float(teff)} n={n}: returned {len(out)} samples [{sub}]", case, sub)
         return
     m = meta_same(z, out)
+    if m and z.dtype.kind in "iu" and type(out) is type(z) and out.dtype.kind == "f" and m.startswith("type/dtype"):
+        m = None            # interpolated values of integer samples are necessarily floating point
     if m:
         res.violation(f"{site}|metadata", f"{m} [{sub}]", case, sub)
     if (out.start_time is None) != (T0 is None):
@@ -217,13 +219,14 @@ def one_call(res, case, z, zdata, XL, N, is_c, T0, srx, targ, teff, delta, n, fo
         return
     if n == 0:
         res.hits["n = 0"] += 1
-        return
     if T0 is not None:
         err = abs(T(out.start_time) - T0 - teff / srx / 86400)
         tol = 6 * ULP_T + F(1, 10 ** 6) / srx / 86400 + (delta or 0) / srx / 86400
         if not res.ratio("start_time err / budget", err, tol):
             res.violation(f"{site}|start_time", f"start_time = start + {float((T(out.start_time) - T0) * 86400 * srx):.9g} "
                           f"samples, requested t = {float(teff):.9g} [{sub}]", case, sub)
+    if n == 0:
+        return
     y = np.asarray(out.data)
     if exact_form and teff.denominator == 1:
         i = int(teff)
@@ -319,7 +322,7 @@ def main(argv=None):
                        "whole-sample count (bit-exact slice)", "fractional (DFT interpolation)", "long signal, large offset", "request a few nano-samples off a whole sample", "sample_rate assigned before a fractional request", "argument forms"],
         assumptions=["the instant a request denotes is computed exactly from the form given (count / Quantity / Time); "
                      "resolution allowance 0 / 1e-15 rel / 4 ulp_T*sr samples",
-                     "start_time of an empty (n=0) result is unconstrained",
+                     "the start_time of an n = 0 result is constrained like any other (start + t/sample_rate)",
                      "Quantity/Time requests exactly on the boundary are unconstrained (either raise or return)"],
         argv=argv)
 
